@@ -48,6 +48,11 @@ def upperC (c : Nat) : Nat := if 97 ≤ c ∧ c ≤ 122 then c - 32 else c
 
 def upper (s : Str) : Str := s.map upperC
 
+/-- ASCII `str.lower()` for one code point. -/
+def lowerC (c : Nat) : Nat := if 65 ≤ c ∧ c ≤ 90 then c + 32 else c
+
+def lower (s : Str) : Str := s.map lowerC
+
 /-- last index of `c` in `s` at or after `start`, i.e. `s.rfind(c, start)`; `none` for -1. -/
 def rfindFrom (c : Nat) (s : Str) (start : Nat) : Option Nat :=
   let rec go (l : Str) (i : Nat) (best : Option Nat) : Option Nat :=
